@@ -11,6 +11,10 @@ import (
 )
 
 func init() {
+	register("T-RAW", ruleRawString)
+	register("T-NUMBER", ruleNumberBase)
+	register("H-FIELDNAME", ruleFieldName)
+	register("K-TWINS", ruleTwins)
 	register("T-STRINGER", ruleStringers)
 	register("T-DISPATCH", ruleDispatch)
 	register("T-SCAN", ruleScanLoops)
@@ -476,7 +480,14 @@ func (c *Ctx) symStr(v ssa.Value, depth int) string {
 				return "[" + strings.Join(elems, ",") + "]"
 			}
 		}
-		return c.symStr(v.X, depth+1) + "[:]"
+		lo, hi := "", ""
+		if v.Low != nil {
+			lo = c.symStr(v.Low, depth+1)
+		}
+		if v.High != nil {
+			hi = c.symStr(v.High, depth+1)
+		}
+		return c.symStr(v.X, depth+1) + "[" + lo + ":" + hi + "]"
 	case *ssa.IndexAddr:
 		return c.symStr(v.X, depth+1) + "[" + c.symStr(v.Index, depth+1) + "]"
 	case *ssa.Extract:
@@ -758,6 +769,250 @@ func ruleStringers(c *Ctx) *RuleResult {
 			}
 			r.viol("stringer|"+tn, c.pos(fn.Pos()), fname(fn), strings.Join(bad, "; "))
 		}
+	}
+	return r
+}
+
+// T-RAW: the raw-string scanner treats only the quote and the backslash-quote
+// pair specially.
+func ruleRawString(c *Ctx) *RuleResult {
+	r := &RuleResult{Doc: "consumeRawStringLiteral compares the scanned rune only with ' and \\, the look-ahead only with ' and eof, and writes to its buffer only pieces of the expression and the quote: every other backslash sequence is preserved", Floor: 3}
+	fn := c.method("Lexer", "consumeRawStringLiteral")
+	next, peek := c.lexerNext(), c.method("Lexer", "peek")
+	srcOf := func(v ssa.Value) string {
+		seen := map[ssa.Value]bool{}
+		var f func(v ssa.Value) string
+		f = func(v ssa.Value) string {
+			if seen[v] {
+				return ""
+			}
+			seen[v] = true
+			switch v := v.(type) {
+			case *ssa.Call:
+				switch staticCallee(v) {
+				case next:
+					return "current"
+				case peek:
+					return "peek"
+				}
+			case *ssa.Phi:
+				out := ""
+				for _, e := range v.Edges {
+					if s := f(e); s != "" {
+						out = s
+					}
+				}
+				return out
+			}
+			return ""
+		}
+		return f(v)
+	}
+	allowed := map[string]map[int64]bool{"current": {'\'': true, '\\': true, -1: true}, "peek": {'\'': true, -1: true}}
+	n := 0
+	for _, b := range fn.Blocks {
+		for _, in := range b.Instrs {
+			switch in := in.(type) {
+			case *ssa.BinOp:
+				k, ok := constInt(in.Y)
+				if !ok {
+					continue
+				}
+				src := srcOf(in.X)
+				if src == "" {
+					continue
+				}
+				n++
+				r.Instances++
+				key := fmt.Sprintf("compare|%s|%s", src, runeLit(k))
+				if allowed[src][k] {
+					r.ok(key, c.pos(in.Pos()), fname(fn), src+" rune compared with "+runeLit(k))
+				} else {
+					r.viol(key, c.pos(in.Pos()), fname(fn), "the "+src+" rune is compared with "+runeLit(k)+": a raw string gives special meaning only to ' and to the pair \\'")
+				}
+			case *ssa.Call:
+				nm := calleeName(in)
+				if !strings.HasPrefix(nm, "(*bytes.Buffer).Write") {
+					continue
+				}
+				n++
+				r.Instances++
+				arg := ""
+				if len(in.Call.Args) > 1 {
+					arg = c.symStr(in.Call.Args[1], 0)
+				}
+				key := fmt.Sprintf("write|%s#%d", shortCallee(nm), n)
+				if nm == "(*bytes.Buffer).WriteString" && (arg == `"'"` || strings.HasPrefix(arg, "param:lexer.expression[")) {
+					r.ok(key, c.pos(in.Pos()), fname(fn), "writes "+arg)
+				} else {
+					r.viol(key, c.pos(in.Pos()), fname(fn), "writes "+arg+" with "+shortCallee(nm)+": only pieces of the expression and the unescaped quote may be emitted")
+				}
+			}
+		}
+	}
+	return r
+}
+
+// T-NUMBER: number tokens are decimal.
+func ruleNumberBase(c *Ctx) *RuleResult {
+	r := &RuleResult{Doc: "index and slice numbers are converted from the token text in base 10 (strconv.Atoi, or ParseInt with base 10)", Floor: 2}
+	for _, name := range []string{"parseIndexExpression", "parseSliceExpression"} {
+		fn := c.method("Parser", name)
+		n := 0
+		for _, b := range fn.Blocks {
+			for _, in := range b.Instrs {
+				call, ok := in.(*ssa.Call)
+				if !ok || !strings.HasPrefix(calleeName(call), "strconv.") {
+					continue
+				}
+				nm := calleeName(call)
+				if strings.HasPrefix(nm, "strconv.Quote") || strings.HasPrefix(nm, "strconv.Format") {
+					continue
+				}
+				n++
+				r.Instances++
+				key := fmt.Sprintf("%s|convert#%d", name, n)
+				arg := c.symStr(call.Call.Args[0], 0)
+				okArg := strings.Contains(arg, "lookaheadToken(") && strings.HasSuffix(arg, ".value")
+				okBase := nm == "strconv.Atoi"
+				if nm == "strconv.ParseInt" || nm == "strconv.ParseUint" {
+					if k, ok := constInt(call.Call.Args[1]); ok && k == 10 {
+						okBase = true
+					}
+				}
+				if okArg && okBase {
+					r.ok(key, c.pos(call.Pos()), fname(fn), nm+"("+arg+"): decimal")
+				} else {
+					r.viol(key, c.pos(call.Pos()), fname(fn), fmt.Sprintf("number converted by %s(%s…): must be a base-10 conversion of the token text (leading zeros are not octal)", nm, arg))
+				}
+			}
+		}
+		if n == 0 {
+			r.viol(name+"|convert", c.pos(fn.Pos()), fname(fn), "no number conversion found")
+		}
+	}
+	return r
+}
+
+// H-FIELDNAME: struct fields are matched after upper-casing the first rune.
+func ruleFieldName(c *Ctx) *RuleResult {
+	r := &RuleResult{Doc: "fieldFromStruct looks up unicode.ToUpper(first rune of key) + rest of key (rune-wise, not byte-wise)", Floor: 2}
+	fn := c.methodOpt("treeInterpreter", "fieldFromStruct")
+	if fn == nil {
+		lost("fieldFromStruct not found")
+	}
+	want := "unicode.ToUpper(unicode/utf8.DecodeRuneInString(param:key)#0)+param:key[unicode/utf8.DecodeRuneInString(param:key)#1:]"
+	n := 0
+	for _, b := range fn.Blocks {
+		for _, in := range b.Instrs {
+			call, ok := in.(*ssa.Call)
+			if !ok || calleeName(call) != "(reflect.Value).FieldByName" {
+				continue
+			}
+			n++
+			r.Instances++
+			got := c.symStr(call.Call.Args[1], 0)
+			key := fmt.Sprintf("fieldname#%d", n)
+			if got == want {
+				r.ok(key, c.pos(call.Pos()), fname(fn), "looks up "+got)
+			} else {
+				r.viol(key, c.pos(call.Pos()), fname(fn), "looks up "+got+"; wanted "+want)
+			}
+		}
+	}
+	return r
+}
+
+// K-TWINS: the reflection twin of the index case adjusts and guards the
+// index exactly like the generic case (sibling cross-check).
+func ruleTwins(c *Ctx) *RuleResult {
+	r := &RuleResult{Doc: "ASTIndex: the generic and the reflective access use the same index expression and the same guards, modulo len(x) vs reflect.Value.Len()", Floor: 1}
+	fn := c.A.Exec
+	cl := c.A.ExecSw.clause("ASTIndex")
+	if cl == nil {
+		lost("no ASTIndex case")
+	}
+	norm := func(s string) string {
+		re := []string{"len(", "(reflect.Value).Len("}
+		for _, p := range re {
+			for {
+				i := strings.Index(s, p)
+				if i < 0 {
+					break
+				}
+				depth, j := 0, i+len(p)-1
+				for ; j < len(s); j++ {
+					if s[j] == '(' {
+						depth++
+					} else if s[j] == ')' {
+						depth--
+						if depth == 0 {
+							break
+						}
+					}
+				}
+				if j >= len(s) {
+					break
+				}
+				s = s[:i] + "LEN" + s[j+1:]
+			}
+		}
+		return s
+	}
+	guards := func(b *ssa.BasicBlock) string {
+		var out []string
+		for d := b; d.Idom() != nil; d = d.Idom() {
+			id := d.Idom()
+			ifi := blockIf(id)
+			if ifi == nil || c.A.ExecSw.clauseAt(instrPos(ifi)) != cl {
+				if ifi == nil || c.A.ExecSw.clauseAt(ifi.Cond.Pos()) != cl {
+					continue
+				}
+			}
+			pol := ""
+			switch {
+			case id.Succs[0] == d || (id.Succs[0].Dominates(d) && !id.Succs[1].Dominates(d)):
+				pol = "T:"
+			case id.Succs[1] == d || id.Succs[1].Dominates(d):
+				pol = "F:"
+			default:
+				continue
+			}
+			s := norm(c.symStr(ifi.Cond, 0))
+			if strings.Contains(s, "LEN") || strings.Contains(s, ">=0") || strings.Contains(s, "<0") {
+				out = append(out, pol+s)
+			}
+		}
+		sort.Strings(out)
+		return strings.Join(out, " & ")
+	}
+	var gen, ref []string
+	for _, b := range fn.Blocks {
+		for _, in := range b.Instrs {
+			if c.A.ExecSw.clauseAt(instrPos(in)) != cl {
+				continue
+			}
+			switch in := in.(type) {
+			case *ssa.IndexAddr:
+				if _, isConst := in.Index.(*ssa.Const); !isConst {
+					gen = append(gen, norm(c.symStr(in.Index, 0))+" | "+guards(b))
+				}
+			case *ssa.Call:
+				if calleeName(in) == "(reflect.Value).Index" {
+					ref = append(ref, norm(c.symStr(in.Call.Args[1], 0))+" | "+guards(b))
+				}
+			}
+		}
+	}
+	r.Instances++
+	pos := c.pos(cl.Pos)
+	switch {
+	case len(gen) != 1 || len(ref) != 1:
+		r.undecided("index-twins", pos, fname(fn), fmt.Sprintf("expected one generic and one reflective element access, found %d and %d", len(gen), len(ref)))
+	case gen[0] == ref[0]:
+		r.ok("index-twins", pos, fname(fn), "both twins access element "+gen[0])
+	default:
+		r.viol("index-twins", pos, fname(fn), "the generic case accesses ["+gen[0]+"] but the reflection twin accesses ["+ref[0]+"]: Go slices would index differently from JSON arrays")
 	}
 	return r
 }
